@@ -11,6 +11,7 @@ pub mod fault;
 pub mod ledger;
 pub mod util;
 pub mod hist;
+pub mod acc;
 
 #[global_allocator]
 static GLOBAL: canary::Canary = canary::Canary;
